@@ -261,6 +261,7 @@ def run(rep, info, model, tier, seed):
             mreq.append([30, e["resource"].encode(), e["host"].encode(), e["port"], base64.b64encode(e["key16"]), (e["agent"] or LC.USER_AGENT).encode(),
                          [[h, v] for h, v in e["headers"]], [p.encode() for p in e["protocols"]], 1 if e["compress"] else 0, 13])
         mres = model.run(mreq)
+        rep.watch_extraction(model, mreq)
         dis = 0
         for sc, (tr, extra), m in zip(reqs, res, mres):
             if extra.get("request") != m:
